@@ -24,6 +24,7 @@ fn main() {
         "candgroups" => for s in &scen_build::candgroups(seed, thorough) { let o = run_build(s); let id = sink.id(); let mut ev = build_event(id, s, &o); ev["pen"] = json!(1); sink.emit(&ev); },
         "lengths" => for s in &scen_build::lengths(seed, thorough) { sink.build(s); },
         "nearblocks" => for s in &scen_build::nearblocks(seed, thorough) { sink.build(s); },
+        "structured" => for s in &scen_build::structured(seed, thorough) { sink.build(s); },
         "modes" => for s in &scen_build::modes(seed, thorough) { sink.build(s); },
         "total" => for s in &scen_build::total(seed, thorough) { sink.build(s); },
         "corrupt" => for (s, errs) in &scen_build::corrupt_specs(seed, thorough) {
